@@ -1,7 +1,7 @@
 \* the whole case table; Quirks = the behaviour of the pinned tree (prediction only, the verdict is the abstract one)
 SPECIFICATION Spec
 CONSTANTS
-  StateKinds = {"fresh", "mid", "epoch", "hdr_ahead", "hdr_ahead_badroot", "pool_has", "pool_other", "restarted"}
+  StateKinds = {"fresh", "mid", "epoch", "hdr_ahead", "hdr_ahead_badroot", "hdr_ahead_badroot2", "pool_has", "pool_other", "restarted"}
   SRIH = {TRUE, FALSE}
   VTs = {TRUE, FALSE}
   Vias = {"block", "header"}
